@@ -101,7 +101,17 @@ def execute(case):
             else:
                 res = py_simulate_model(grid, Model=M, stochastic=True, safe=bool(case.get("safe")), return_dataframe=False)
         elif mode == "delay":
-            if iface is not None:
+            if iface is not None and case.get("split"):
+                # a run continued from the first segment's final state and returned queue
+                k = case["split"]
+                q = ArrayDelayQueue.setup_queue(len(model["reactions"]), k + 1, dt)
+                res1 = DelaySSASimulator().py_delay_simulate(iface, q, grid[:k + 1])
+                rows1 = np.array(res1.py_get_result(), dtype=float)
+                iface.py_set_initial_state(rows1[-1].copy())
+                iface.py_set_initial_time(float(grid[k]))
+                res = DelaySSASimulator().py_delay_simulate(iface, res1.py_get_delay_queue(), grid[k:])
+                out["rows_first_segment"] = rows1
+            elif iface is not None:
                 q = ArrayDelayQueue.setup_queue(len(model["reactions"]), len(grid), dt)
                 res = DelaySSASimulator().py_delay_simulate(iface, q, grid)
             else:
@@ -132,6 +142,8 @@ def execute(case):
     out["rows"] = np.array(res.py_get_result(), dtype=float)
     tp = res.py_get_timepoints()
     out["times"] = None if tp is None else np.array(tp, dtype=float)
+    if out.get("rows_first_segment") is not None:
+        out["rows"] = np.vstack([out.pop("rows_first_segment"), out["rows"]])
     if mode in ("volume", "delayvolume"):
         out["vols"] = np.array(res.py_get_volume(), dtype=float)
         out["divided"] = int(res.py_cell_divided())
@@ -141,7 +153,7 @@ def execute(case):
         c = q.py_copy()
         Rn = len(model["reactions"])
         slots = []
-        for _ in range(len(grid)):
+        for _ in range(len(grid) + 2):
             a = np.zeros(Rn)
             t = c.py_get_next_queue_time()
             c.py_get_next_reactions(a)
@@ -182,7 +194,7 @@ def reference(case, raw):
         if mode == "ssa":
             ref = refsim.sim_ssa(model, grid, tape, safe=safe, dt=dt)
         elif mode == "delay":
-            ref = refsim.sim_delay(model, grid, tape, safe=safe, dt=dt)
+            ref = refsim.sim_delay(model, grid, tape, safe=safe, dt=dt, split=case.get("split"))
         elif mode == "volume":
             ref = refsim.sim_volume(model, grid, tape, safe=safe, dt=dt, v0=v0, volspec=spec, volinit=volinit)
         else:
@@ -245,7 +257,8 @@ def lockstep(case, raw):
         if k is not None:
             detail["got"] = got[k].tolist()
             detail["expected"] = exp[k].tolist()
-            detail["time"] = case["grid"][k]
+            kk = k if not case.get("split") else (k if k <= case["split"] else k - 1)
+            detail["time"] = case["grid"][min(kk, len(case["grid"]) - 1)]
         if case["mode"] in ("volume", "delayvolume"):
             detail["vols_got"] = raw["vols"][:8].tolist()
             detail["vols_expected"] = ref.vols[:8]
